@@ -696,13 +696,28 @@ func runStorm(c caseT) obsT {
 		ctx, cancel := context.WithCancel(context.Background())
 		ch := col.PullID(ctx, ids[2], resource.WithBackpressure(true), resource.WithUpdatesOnly(c.Iter%2 == 1))
 		got := make(chan struct{})
+		first := make(chan struct{})
 		go func() {
+			n := 0
 			for range ch {
+				if n++; n == 1 {
+					close(first)
+				}
 			}
 			close(got)
 		}()
-		// make sure the subscription is established (its seed arrives) before removing
-		time.Sleep(2 * time.Millisecond)
+		// The subscription registers from a goroutine of its own: it is established once its first event has
+		// arrived -- the seed, or (updates only) one of the updates made until one comes through.  A fixed pause
+		// is not that: on a busy machine the removal could precede the registration and never be seen.
+		established := false
+		for k := 0; k < 500 && !established; k++ {
+			select {
+			case <-first:
+				established = true
+			case <-time.After(10 * time.Millisecond):
+				_, _ = col.Update(ids[2], msg(8+k))
+			}
+		}
 		_, _ = col.Delete(ids[2], resource.WithAllowMissing(true))
 		select {
 		case <-got:
@@ -721,7 +736,9 @@ func runStorm(c caseT) obsT {
 				o.PullIDStall++
 			}
 		case <-time.After(5 * time.Second):
-			o.PullIDOpen++
+			if established {
+				o.PullIDOpen++
+			}
 		}
 		cancel()
 	}
@@ -915,9 +932,13 @@ func runStorm(c caseT) obsT {
 		case <-time.After(6 * time.Second):
 			o.WriterStall++
 		}
-		time.Sleep(20 * time.Millisecond)
 		if o.WriterStall == 0 {
+			// (the value travels through the subscriptions' own goroutines: it is awaited, not assumed to have
+			//  arrived after a pause)
 			for _, w := range []*watcher{wa, wb, wn} {
+				for deadline := time.Now().Add(4 * time.Second); atomic.LoadInt64(&w.last) != 2 && time.Now().Before(deadline); {
+					time.Sleep(200 * time.Microsecond)
+				}
 				if atomic.LoadInt64(&w.last) != 2 {
 					o.SurvivorMissed++
 				}
@@ -951,7 +972,17 @@ func runStorm(c caseT) obsT {
 		deleted := make(chan struct{})
 		go func() { defer close(deleted); _, _ = seedCol.Delete(ids[c.Iter%3], resource.WithAllowMissing(true)) }()
 		time.Sleep(time.Duration(200+rnd.Intn(800)) * time.Microsecond)
-		for take(300 * time.Millisecond) { // the consumer keeps receiving: the other seeds, then the removal
+		// the consumer keeps receiving: the other seeds, then the removal
+		for deadline := time.Now().Add(5 * time.Second); got < 4 && time.Now().Before(deadline); {
+			select {
+			case _, ok := <-sch:
+				if !ok {
+					deadline = time.Time{} // closed: nothing more can come
+				} else {
+					got++
+				}
+			case <-time.After(100 * time.Millisecond):
+			}
 		}
 		select {
 		case <-deleted:
